@@ -823,6 +823,8 @@ pub enum Profile {
     /// row/column insert/delete/move with re-type-safe content only: no arrays, spills, names,
     /// links, conditional formats
     Structural,
+    /// `Edit` plus whole-row / whole-column style operations (band styles)
+    EditBands,
 }
 
 /// Recording operations with *valid-looking* arguments from small domains.
@@ -830,12 +832,13 @@ pub fn recording_op(profile: Profile) -> BoxedStrategy<Op> {
     let full = profile == Profile::Full;
     let class = match profile {
         Profile::Full => InputClass::Full,
-        Profile::Edit => InputClass::Plain,
+        Profile::Edit | Profile::EditBands => InputClass::Plain,
         Profile::Structural => InputClass::Safe,
     };
+    let bands = full || profile == Profile::EditBands;
     let row = || if full { hot_row().boxed() } else { (1..=HOT_ROWS).boxed() };
     let col = || if full { hot_col().boxed() } else { (1..=HOT_COLS).boxed() };
-    let area = || if full { hot_area().boxed() } else { small_area().boxed() };
+    let area = || if bands { hot_area().boxed() } else { small_area().boxed() };
     let input = (sheet_sel(), row(), col(), cell_input(class))
         .prop_map(|(s, row, col, text)| Op::Input { s, row, col, text });
     let array = (sheet_sel(), 1..=HOT_ROWS, 1..=HOT_COLS, 1..3i32, 1..3i32, super::inputs::history_formula())
@@ -976,7 +979,7 @@ pub fn recording_op(profile: Profile) -> BoxedStrategy<Op> {
             3 => workbook,
         ]
         .boxed(),
-        Profile::Edit => prop_oneof![
+        Profile::Edit | Profile::EditBands => prop_oneof![
             30 => input,
             6 => clear,
             8 => style,
@@ -1078,7 +1081,11 @@ pub fn guard(um: &UserModel, op: &Op, profile: Profile) -> Option<&'static str> 
                 let lnew = new_name.to_lowercase();
                 let count = |n: &str| model.workbook.defined_names.iter().filter(|d| d.name.to_lowercase() == n).count();
                 let renames = lname != lnew;
-                (renames && (count(&lname) > 1 || count(&lnew) > 0)) || (renames && scope != new_scope) || (!renames && scope != new_scope && count(&lname) > 1)
+                // a formula that already spells the new name (unbound, #NAME?) would be captured
+                let spelled = |n: &str| {
+                    model.workbook.worksheets.iter().any(|w| w.shared_formulas.iter().any(|f| f.to_lowercase().contains(n)))
+                };
+                (renames && (count(&lname) > 1 || count(&lnew) > 0 || spelled(&lnew))) || (renames && scope != new_scope) || (!renames && scope != new_scope && count(&lname) > 1)
             } =>
         {
             return Some("name-update-with-shadowing-or-rescoping");
